@@ -77,7 +77,10 @@ Definition set_flag (f : flags) (b : buf) := {| b_flag := f; b_size := b_size b;
 Definition set_data (m : mem) (b : buf) := {| b_flag := b_flag b; b_size := b_size b; b_data := m |}.
 
 (* ------------------------------------------------------------------ the LTS *)
-Inductive msg := MStart (i : nat) | MEnd (i : nat).
+Inductive msg := MStart (i : nat) | MEnd (i : nat)
+               | MTask (i : nat).   (* TASK_START for a tid the recorder already knows: the task exec()ed a new image;
+                                       flush_old_shmem flushes the FIRST announced buffer of the tid (`i`, a ghost
+                                       annotation: the buffer the old image was recording into) *)
 Inductive ppc :=
 | PIdle                 (* between two records *)
 | PCheck (r : rec)      (* get_shmem_buffer: does it fit? *)
@@ -92,6 +95,9 @@ Inductive ppc :=
 | PBumpPl (r : rec)     (* curr_buf->size += ALIGN(size, 8) *)
 | PPrepStart            (* prepare_shmem_buffer: both buffers exist; REC_START for index 0 *)
 | PPrepFlag             (* prepare_shmem_buffer: buffer[0]->flag = RECORDING | NEW (curr = 0) *)
+| PXStart (b o : nat)   (* the image exec()ed in this task sets itself up: its ring starts at index b; REC_START b *)
+| PXFlag (b o : nat)    (*   buffer[b]->flag = RECORDING | NEW *)
+| PXTask (b o : nat)    (*   TASK_START: the recorder will flush the old image's buffer o (curr = b from now on) *)
 | PDark.                (* nothing this thread does can reach the recorder any more: it is done (mtd_dtor,
                            shmem.done), or the message pipe was closed (mcount_trace_finish, fd = -1) and it
                            moved on to a buffer whose REC_START was never delivered *)
@@ -201,6 +207,11 @@ Definition pstep (single : bool) (cap : nat) (s : st) : st :=
       with_pc PIdle (with_done (done s ++ [r])
                        (on_cur (fun b => set_size (b_size b + off + align8 (length (r_pl r))) b) s))
   | PDark => s
+  | PXStart b o => with_pc (PXFlag b o) (with_chan (chan s ++ [MStart b]) s)
+  | PXFlag b o =>
+      with_pc (PXTask b o)
+        (with_bufs (upd b (set_flag {| f_new := true; f_written := false; f_rec := true |}) (bufs s)) s)
+  | PXTask b o => with_pc PIdle (with_curr (Some b) (with_chan (chan s ++ [MTask o]) s))
   | PPrepStart => with_pc PPrepFlag (with_chan (chan s ++ [MStart 0]) s)
   | PPrepFlag =>
       with_pc PIdle (with_curr (Some 0)
@@ -227,6 +238,15 @@ Definition pstep_closed (single : bool) (cap : nat) (s : st) : st :=
   | PPrepStart => with_pc PDark (with_todo [] s)                    (* ... the thread's very first buffer *)
   | _ => pstep single cap s
   end.
+(* exec between two hook calls: the image is replaced.  The old image's current buffer stays announced (no REC_END);
+   its other shm objects are out of reach of the new image, which gets a ring of its own: modelled by marking
+   the old free buffers busy and appending two fresh buffers.  The rest of `todo` is what the new image records. *)
+Definition busy (b : buf) : buf := set_flag (or_rec (b_flag b)) b.
+Definition xstep (s : st) : st :=
+  match pc s, curr s with
+  | PIdle, Some c => with_pc (PXStart (length (bufs s)) c) (with_bufs (map busy (bufs s) ++ [fresh_buf; fresh_buf]) s)
+  | _, _ => s
+  end.
 (* mtd_dtor between two hook calls: a normal thread end sends REC_END (shmem_finish); after a finish /
    signal trigger the pipe is closed first, so the REC_END is lost.  Later hook calls record nothing. *)
 Definition dstep (closed : bool) (s : st) : st :=
@@ -252,6 +272,11 @@ Definition rstep (s : st) : st :=
   | [] => s
   | MStart i :: ch => with_shl (shl s ++ [i]) (with_chan ch s)
   | MEnd i :: ch => queue_if i (with_shl (remove_first i (shl s)) (with_chan ch s))
+  | MTask _ :: ch =>         (* flush_old_shmem: the first entry of the tid *)
+      match shl s with
+      | j :: r => queue_if j (with_shl r (with_chan ch s))
+      | [] => with_chan ch s
+      end
   end.
 
 (* writer: write_buffer (append data[0..size), size = 0), then flag = WRITTEN *)
@@ -267,11 +292,13 @@ Definition wstep (s : st) : st :=
 
 Inductive lab := LP | LR | LW
                 | LPC            (* producer step with the pipe closed *)
-                | LD | LDC.      (* mtd_dtor with the pipe open / closed *)
+                | LD | LDC       (* mtd_dtor with the pipe open / closed *)
+                | LX.            (* exec *)
 Definition step (single : bool) (cap : nat) (l : lab) (s : st) : st :=
   match l with
   | LP => pstep single cap s | LR => rstep s | LW => wstep s
   | LPC => pstep_closed single cap s | LD => dstep false s | LDC => dstep true s
+  | LX => xstep s
   end.
 Definition run (single : bool) (cap : nat) (sched : list lab) (s : st) : st :=
   fold_left (fun s l => step single cap l s) sched s.
@@ -373,6 +400,13 @@ Definition mqueue_if (t i : nat) (M : mst) : mst :=
   let b := getb i (h_bufs (nth t (m_thr M) thr0)) in
   if f_rec (b_flag b) && negb (Nat.eqb (b_size b) 0)
   then {| m_thr := m_thr M; m_chan := m_chan M; m_shl := m_shl M; m_wl := m_wl M ++ [(t, i)] |} else M.
+(* the first entry of tid t in a list (a writer serving tid t; flush_old_shmem) *)
+Fixpoint take_first (t : nat) (l : list (nat * nat)) : option (nat * list (nat * nat)) :=
+  match l with
+  | [] => None
+  | (u, i) :: r => if Nat.eqb u t then Some (i, r)
+                   else match take_first t r with Some (j, r') => Some (j, (u, i) :: r') | None => None end
+  end.
 (* read_record_mmap: the head of the pipe *)
 Definition mrstep (M : mst) : mst :=
   match m_chan M with
@@ -380,13 +414,11 @@ Definition mrstep (M : mst) : mst :=
   | (t, MStart i) :: ch => {| m_thr := m_thr M; m_chan := ch; m_shl := m_shl M ++ [(t, i)]; m_wl := m_wl M |}
   | (t, MEnd i) :: ch =>
       mqueue_if t i {| m_thr := m_thr M; m_chan := ch; m_shl := remove_first_pair (t, i) (m_shl M); m_wl := m_wl M |}
-  end.
-(* a writer serving tid t: the first queued buffer of that tid *)
-Fixpoint take_first (t : nat) (l : list (nat * nat)) : option (nat * list (nat * nat)) :=
-  match l with
-  | [] => None
-  | (u, i) :: r => if Nat.eqb u t then Some (i, r)
-                   else match take_first t r with Some (j, r') => Some (j, (u, i) :: r') | None => None end
+  | (t, MTask _) :: ch =>
+      match take_first t (m_shl M) with
+      | Some (j, r) => mqueue_if t j {| m_thr := m_thr M; m_chan := ch; m_shl := r; m_wl := m_wl M |}
+      | None => {| m_thr := m_thr M; m_chan := ch; m_shl := m_shl M; m_wl := m_wl M |}
+      end
   end.
 Definition mwrite (release : bool) (t i : nat) (M : mst) : mst :=
   set_thr t (thr_of (write_one release i (proj t M))) M.
@@ -397,7 +429,7 @@ Definition mwstep (t : nat) (M : mst) : mst :=
     | Some (i, w) => mwrite true t i {| m_thr := m_thr M; m_chan := m_chan M; m_shl := m_shl M; m_wl := w |}
     end
   else M.
-Inductive mlab := MP (t : nat) | MPC (t : nat) | MD (t : nat) | MDC (t : nat) | MR | MW (t : nat).
+Inductive mlab := MP (t : nat) | MPC (t : nat) | MD (t : nat) | MDC (t : nat) | MR | MW (t : nat) | MX (t : nat).
 Definition mstep (single : bool) (cap : nat) (l : mlab) (M : mst) : mst :=
   match l with
   | MP t => lift_p (pstep single cap) t M
@@ -406,6 +438,7 @@ Definition mstep (single : bool) (cap : nat) (l : mlab) (M : mst) : mst :=
   | MDC t => lift_p (dstep true) t M
   | MR => mrstep M
   | MW t => mwstep t M
+  | MX t => lift_p xstep t M
   end.
 Definition mrun (single : bool) (cap : nat) (sched : list mlab) (M : mst) : mst :=
   fold_left (fun M l => mstep single cap l M) sched M.
@@ -684,7 +717,7 @@ Fixpoint bad_indices {A} (ok : A -> bool) (l : list A) (i : nat) : list nat :=
 (* visible events of the producer: a change of (size, flag) of some buffer *)
 Definition visible (single : bool) (s : st) : bool :=
   match pc s with
-  | PPick _ | PPrepFlag => true
+  | PPick _ | PPrepFlag | PXFlag _ _ => true
   | PBump r => negb (single && has_pl r)
   | PBumpPl r => single || negb (Nat.eqb (align8 (length (r_pl r))) 0)
   | _ => false
